@@ -124,3 +124,41 @@ package client
 //@   ensures [C08 no_history_means_not_started] !(sockq.err == nil && obs.json_st != nil) &&
 //@        (err_is(obs.today_err, persistence.ErrNoStatusDataToday) || err_is(obs.today_err, persistence.ErrNoStatusData)) ==>
 //@        (err == nil && st.Status == scheduler.StatusNone)
+
+// ---------------------------------------------------------------------------------------------
+// Definitions (C18): rename keeps the definition and carries its history; delete removes history then definition.
+
+//@ fn (*client).Rename(e, oldID, newID) (err)
+//@   props C18
+//@   requires e.dataStore != nil
+//@   modifies heap(alloc), ghost st.seq, ghost eff.hist, ghost dagst.find_calls, ghost dagst.find_name, ghost dagst.find_dag, ghost dagst.find_err,
+//@            ghost dagst.renames, ghost dagst.rename_seq, ghost dagst.rename_old, ghost dagst.rename_new, ghost dagst.rename_err,
+//@            ghost histst.renames, ghost histst.rename_seq, ghost histst.rename_old, ghost histst.rename_new
+//@   assert before (persistence.DAGStore).Rename [C18 definition_renamed_as_asked] arg1 == oldID && arg2 == newID && dagst.find_name == oldID && dagst.find_err == nil
+//@   assert before (persistence.HistoryStore).Rename [C18 history_follows_only_a_successful_rename] dagst.renames == old(dagst.renames) + 1 && dagst.rename_err == nil &&
+//@        dagst.find_name == newID && dagst.find_err == nil && arg2 == dagst.find_dag.Location && arg1 == oldDAG.Location
+//@   ensures [C18 failed_definition_rename_leaves_history_alone] dagst.renames == old(dagst.renames) + 1 && dagst.rename_err != nil ==> (err != nil && histst.renames == old(histst.renames))
+//@   ensures [C18 unknown_dag_is_not_renamed] dagst.renames == old(dagst.renames) ==> (err != nil && histst.renames == old(histst.renames))
+//@   ensures [C18 history_is_renamed_at_most_once] histst.renames == old(histst.renames) || histst.renames == old(histst.renames) + 1
+
+//@ fn (*client).DeleteDAG(e, name, loc) (err)
+//@   props C18
+//@   requires e.dataStore != nil
+//@   modifies heap(alloc), ghost st.seq, ghost eff.hist, ghost dagst.deletes, ghost dagst.delete_seq, ghost dagst.delete_name,
+//@            ghost histst.removealls, ghost histst.removeall_seq, ghost histst.removeall_loc, ghost histst.removeall_err
+//@   ensures [C18 history_of_this_dag_is_removed] histst.removealls == old(histst.removealls) + 1 && histst.removeall_loc == loc
+//@   ensures [C18 definition_deleted_after_its_history] dagst.deletes != old(dagst.deletes) ==>
+//@        (dagst.deletes == old(dagst.deletes) + 1 && dagst.delete_name == name && histst.removeall_err == nil && histst.removeall_seq < dagst.delete_seq)
+//@   ensures [C18 nothing_else_is_deleted] histst.removeall_err == nil ==> dagst.deletes == old(dagst.deletes) + 1
+
+//@ fn (*client).UpdateDAG(e, id, spec) (err)
+//@   props C18 C20
+//@   requires e.dataStore != nil
+//@   modifies heap(alloc), ghost st.seq, ghost dagst.updates, ghost dagst.update_name, ghost dagst.update_spec
+//@   ensures [C18 save_passes_the_text_through] dagst.updates == old(dagst.updates) + 1 && dagst.update_name == id && len(dagst.update_spec) == len(spec)
+
+//@ fn (*client).CreateDAG(e, name) (id, err)
+//@   props C18
+//@   requires e.dataStore != nil
+//@   modifies heap(alloc), ghost st.seq, ghost dagst.creates, ghost dagst.create_name
+//@   ensures [C18 create_goes_through_the_store] dagst.creates == old(dagst.creates) + 1 && dagst.create_name == name
